@@ -17,6 +17,17 @@ THEOREMS = {
     "C13_model_is_source_smooth_plates": "likewise for RetrospectivePlateSmoother.smooth_plates and every inner smoother",
     "C13_model_is_source_merge_min_smooth_plates": "the translation of the whole method MergeMinPlateSmoother._smooth_plates (while True on explicit fuel) regenerated from /repo equals the model merge_min for every min_size, screen and answer stream whenever the fuel exceeds the number of experiments",
     "C13_model_is_source_merge_tb_smooth_plates": "the translation of the whole method MergeTopBottomPlateSmoother._smooth_plates regenerated from /repo equals the model merge_tb for every n_iterations and screen",
+    "C13_model_is_source_sample_segregating_generate_plates": "for every max_plate_size >= 0, screen and answer stream the translation of the whole method SampleSegregatingPermutationPlateGenerator._generate_plates (loop over samples, size test, n_plates = ceil(len/float(max)), rng.permutation, np.array_split, both appends, labelling loop, Screen(...)) regenerated from /repo equals the model with numpy's IndexError of the label store made explicit (sample_seg_checked); under the permutation contract (hypothesis of the shape theorems) it equals sample_seg true, and the translated generate_plates wrapper around it equals generate_plates (GSampleSeg true mx)",
+    "C13_model_is_source_sample_segregating_generate_plates_negative_max": "max_plate_size < 0: translation and model have the same outcome up to the error tag (both raise at the first sample; both return the empty screen)",
+    "C13_model_is_source_plate_permutation_generate_plates": "the translation of the whole method PlatePermutationPlateGenerator._generate_plates equals plate_perm for every force list (None / [] / names), screen and answer stream; through the translated wrapper it equals generate_plates (GPerm force)",
+    "C13_model_is_source_fixed_size_smooth_plates": "the translation of the whole method FixedSizeSmoother._smooth_plates (three-way size test, rng.choice of plate_size indices, np.isin, OR-loop, subset().to_screen()) equals size_smooth for every plate_size, screen and answer stream; through the translated smooth_plates wrapper it equals smooth_plates (SFixed t)",
+    "C13_model_is_source_optimal_size_smooth_plates": "the translation of the whole method OptimalSizeSmoother._smooth_plates (np.sort of the plate sizes, argmax of size*(n-position), indexing, then the FixedSize loops) equals optimal_smooth for every screen and answer stream; through the wrapper: smooth_plates SOptimal",
+    "C13_model_is_source_nplate_smooth_plates": "the translations of NPlatePerCellLineSmoother._get_plate_sample_id and ._smooth_plates (defaultdict counting loop keyed by integer sample ids, sample_names_by_id, loop over the items, drop by NAME) equal plate_sample (as id) and the repaired model nplate true for every minimum and screen; through the wrapper: smooth_plates (SNPlate true m)",
+    "C13_model_is_source_ensemble_smooth_plates": "the translation of BatchieEnsemblePlateSmoother._smooth_plates (four calls, each = translated smooth_plates wrapper around the translated _smooth_plates of the named class with the argument the source passes) equals ensemble true whenever the MergeMin while-fuel exceeds the number of experiments; through the wrapper: smooth_plates (SEnsemble true ..)",
+    "C13_model_is_source_sparse_cover_generate_and_unmask_initial_plate": "the translations of InitialRetrospectivePlateGenerator.generate_and_unmask_initial_plate (core.py, = fully-observed check then the inner method, for EVERY inner method) and of SparseCoverPlateGenerator._generate_and_unmask_initial_plate (per-sample loop, `while len(remaining_treatments) > 0` on explicit fuel, reveal branch, plate names, Screen(...)) compose to the model sparse_cover for every screen and answer stream whenever fuel > number of recorded answers or fuel > number of distinct treatment ids",
+    "C13_model_is_source_sparse_cover_terminates": "with #distinct-treatment-ids + 1 units of fuel the translated SparseCover source returns Ok on every fully observed screen for every answer stream obeying the choice contract with #samples + #distinct ids answers (the fuel hypothesis discharged by C13_sparse_cover_terminates / _loop_progress)",
+    "C13_model_is_source_filter_dataset_to_treatments_that_appear_in_at_least_one_combo": "the translation of the whole function filter_dataset_to_treatments_that_appear_in_at_least_one_combo (data.py) equals combo_filter for every control name, arity and screen",
+    "C13_model_is_source_pairwise_generate_plates": "the translation of the whole method PairwisePlateGenerator._generate_plates (combination / single-agent split, np.unique with counts, anchor branch with argsort / both floor divisions / permutations / array_splits / setdiff1d, plain branch, the nested loops filling group_lookup, np.vectorize(group_lookup.get), n_control and its store, row sort, hstack with sample ids, np.unique(axis=0), labelling loop, Screen(...), the `is None` return, the per-sample loop assigning single-agent experiments with its raise and rng.choice, second Screen(...), combine) equals the model pairwise for every control name, subset / anchor size, screen and answer stream whose first answer, when anchors are requested, is np.argsort's (positions within the unique-id array); through the translated wrapper it equals generate_plates (GPairwise ..)",
     "C13_sample_segregating_shape": "repaired logic (fixed=true), every permutation answer a permutation of the sample's indices: every unobserved output plate holds one sample and at most max experiments",
     "C13_sample_segregating_even": "repaired logic (fixed=true), permutation contract: any two unobserved output plates holding experiments of the same sample differ in size by at most one (the plates of a sample are the np.array_split chunks)",
     "C13_sample_segregating_shape_refuted": "code as found (fixed=false): witness A,A,B,B,B with max 3 gives one plate '' of 5 > 3 experiments holding 2 samples",
@@ -62,7 +73,53 @@ EXPLANATION = ("Models shared with C11 (Model/Retro.v, Pairwise.v, RetroInit.v);
                "MergeTopBottomPlateSmoother._smooth_plates are re-translated from /repo on every run (harness/py2gal.py -> Generated/SrcRetro.v) and proved equal to wrap / "
                "merge_min / merge_tb for all inputs (MergeMin: whenever the explicit while-fuel exceeds the number of experiments); trusted: "
                "the translator, Lib/PyRt.v and the primitives listed in C11's explanation (configurations C11_GENERATE_PLATES, "
-               "C11_SMOOTH_PLATES, C13_MERGEMIN_SAMPLE_ID, C13_MERGEMIN, C13_MERGETB_SAMPLE_ID, C13_MERGETB of harness/src_functions.py).")
+               "C11_SMOOTH_PLATES, C13_MERGEMIN_SAMPLE_ID, C13_MERGEMIN, C13_MERGETB_SAMPLE_ID, C13_MERGETB of harness/src_functions.py).  "
+               "ROUND-2 LINKS (Generated/SrcRetroGen.v, proofs Proofs/C13Source.v): SampleSegregating / PlatePermutation._generate_plates, "
+               "FixedSize / OptimalSize / NPlatePerCellLine (+ _get_plate_sample_id) / BatchieEnsemble._smooth_plates, "
+               "SparseCover._generate_and_unmask_initial_plate with its public wrapper (core.py) and the combination filter (data.py) "
+               "are re-translated whole on every run and proved equal to sample_seg true, plate_perm, size_smooth, optimal_smooth, "
+               "nplate true, ensemble true, sparse_cover, combo_filter (and, through the translated wrappers, to generate_plates g / "
+               "smooth_plates sm - the subjects of the shape theorems).  Hypotheses of these links: max_plate_size >= 0 and, for the "
+               "unchecked model, the permutation contract (SampleSegregating: numpy's IndexError of `plate_names[indices] = ...` is "
+               "part of the translation, the model ignores out-of-range answers; the hypothesis-free statement is against "
+               "sample_seg_checked; a negative max is covered up to the error tag); sufficient fuel for the two while loops "
+               "(MergeMin inside the ensemble: > number of experiments; SparseCover: > number of recorded answers or > number of "
+               "distinct treatment ids - the latter discharged by the termination argument, C13_model_is_source_sparse_cover_terminates).  "
+               "TRUSTED by these links: the translator (two additive extensions: cfg expr_state_calls = a stateful call such as "
+               "rng.permutation(..) as an argument of another call, bound where Python evaluates it; cfg while_cond = `while c:` as "
+               "`while True: if not c: break`), Lib/PyRt.v, and the primitives of the configurations C13_SAMPLE_SEG, C13_FIXED_SIZE, "
+               "C13_OPTIMAL_SIZE, C13_NPLATE_SAMPLE_ID, C13_NPLATE, C13_ENSEMBLE, C13_PLATE_PERMUTATION, C13_SPARSE_COVER, "
+               "C13_INITIAL_WRAPPER, C13_COMBO_FILTER, C13_PAIRWISE (meanings: last sections of Model/Retro.v, Model/RetroInit.v and "
+               "Model/Pairwise.v; proofs of the Pairwise link in Proofs/C13SourcePairwise.v; its hypothesis argsort_ok: with anchor_size > 0 "
+               "the first recorded answer is np.argsort's and the positions it uses are positions of the unique-id array - numpy's "
+               "argsort returns a permutation of the positions, and Python calls it before anything else can raise; Pairwise "
+               "primitives: screen.treatment_ids == SENTINEL row by row, np.any(axis=1), v.any(), np.unique(ids, return_counts=True) on "
+               "the re-encoded combination screen (ids = ranks of its keys), np.argsort(-counts) = the next recorded answer, a[:n], "
+               "u[idx] (IndexError outside), len(a) // subset_size (ZeroDivisionError at 0), np.setdiff1d on sorted unique arrays, "
+               "np.vectorize(d.get)(ids) (None when absent), np.sum(g == SENTINEL), rng.choice(range(n), size=k, replace=True) = the next "
+               "recorded answer, refused unless of length k, g[g == SENTINEL] = vals (row-major fill, ValueError on a count mismatch), "
+               "np.sort(g, axis=1) (TypeError on None), sample_ids[:, np.newaxis], np.hstack, np.unique(axis=0) = sorted distinct rows, "
+               "(a == t).all(axis=1), names[mask] = f'generated_plate_{k}' and names[mask] = vals (IndexError / ValueError on a length "
+               "mismatch), np.unique(sample_names), (sample_names == nm).sum(), np.unique(plate_names[sample_names == nm]), "
+               "rng.choice(names, size=n, replace=True) = the next recorded answer, refused unless n names of the offered array), namely: "
+               "screen.unique_sample_ids = sorted unique names; np.arange(size)[sample_ids == i] / [plate.selection_vector] / "
+               "np.arange(v.size)[m] (IndexError on a length mismatch) = positions of the true entries; math.ceil(a/float(b)) = ceiling "
+               "of the quotient, ZeroDivisionError at 0; rng.permutation / rng.choice(a, n, replace=False) = the next recorded answer "
+               "(ValueError for n < 0); rng.choice(a, size=1) = the next recorded answer, refused unless it is one element of a; "
+               "np.array_split (ValueError unless n >= 1); np.array(['']*n) / np.array(['initial_plate']*n, dtype=str); "
+               "`names[idx] = f'generated_plate_{k}'` (IndexError outside the array); `names[~v] = 'unobserved_plate'` on the '<U13' "
+               "array (truncation to 13 characters, IndexError on a length mismatch); the Screen(...) calls (ValueError on a length "
+               "mismatch, then the plate-uniform check); screen.plates, plate.size, plate.selection_vector, Plate(screen, v) = v, "
+               "np.isin(np.arange(size), idx), np.zeros / np.ones(size, bool), `|`, `&`, `~`, screen.subset(v) = the selected rows, "
+               "to_screen() = identity on them (the constructor's checks pass on a sub-selection of a valid screen; in the filter it is "
+               "[construct], as in the model); np.sort(np.array(l)), np.argmax (first maximum, ValueError when empty), np.arange(n), "
+               "elementwise `*` and `n - v`, a[i]; defaultdict(lambda: 0), plate.unique_sample_ids as integer ids (ranks of names), "
+               "screen.sample_mapping[0] = names by id, l[i], screen.sample_names != nm; the four `<Class>(arg=self.arg).smooth_plates"
+               "(screen, rng)` calls = the translated wrapper around the translated method; ~np.isin(plate_names, force), np.any(~v), "
+               "a.combine(b); screen.treatment_ids (None = control sentinel), np.isin / np.in1d(..).reshape on it, np.any / np.all "
+               "(axis=1), a[idx].flatten(), set(..) / list(..) / set.update on ids (a set = any list of its elements), np.setdiff1d "
+               "(membership and emptiness only), v.sum(), screen.observations.copy(), screen.is_observed, screen.treatment_arity, "
+               "np.unique / np.concatenate on ids, (a == SENTINEL).reshape(a.shape).")
 
 SIGNATURES = ("sample-segregating-lumps-small-samples", "nplate-stale-sample-ids")
 
